@@ -8,7 +8,7 @@ halves; serialisers, JOSE and HTTP are not in it.
 import IdpyVerif.Base
 namespace Idpy.Interop
 
-inductive RT where | code | idToken | codeIdToken
+inductive RT where | code | idToken | codeIdToken | codeToken | idTokenToken | codeIdTokenToken | token
   deriving Repr, DecidableEq
 inductive RM where | default | query | fragment | formPost
   deriving Repr, DecidableEq
@@ -63,6 +63,9 @@ structure Outcome where
   calls : List Call
   codeFront : Bool            -- a code in the authorization response
   idTokenFront : Bool         -- an ID token in the authorization response
+  tokenFront : Bool           -- an access token in the authorization response (the RP then uses THAT one and skips the token endpoint)
+  idToken : Bool              -- an ID token reaches the relying party at all
+  accessToken : Bool          -- the relying party ends up with an access token
   tokenResponse : Bool        -- the RP goes to the token endpoint
   refreshToken : Bool
   idTokenEncrypted : Bool
@@ -70,11 +73,14 @@ structure Outcome where
   deriving Repr, DecidableEq
 
 def hasCode : RT → Bool
-  | .idToken => false
-  | _ => true
+  | .code | .codeIdToken | .codeToken | .codeIdTokenToken => true
+  | _ => false
 def hasIdTokenFront : RT → Bool
-  | .code => false
-  | _ => true
+  | .idToken | .codeIdToken | .idTokenToken | .codeIdTokenToken => true
+  | _ => false
+def hasTokenFront : RT → Bool
+  | .codeToken | .idTokenToken | .codeIdTokenToken | .token => true
+  | _ => false
 
 /-- one flow; `offline` = the request asks for offline_access (with prompt=consent) -/
 def run (c : Cell) (offline : Bool) : Option Outcome :=
@@ -84,16 +90,19 @@ def run (c : Cell) (offline : Bool) : Option Outcome :=
     some {
       placement := p
       calls := (if c.req = .pushed then [.pushed] else []) ++ [.authorization] ++
-               (if hasCode c.rt then [.token, .userinfo] else [])
+               (if hasTokenFront c.rt then [.userinfo] else if hasCode c.rt then [.token, .userinfo] else [])
       codeFront := hasCode c.rt
       idTokenFront := hasIdTokenFront c.rt
-      tokenResponse := hasCode c.rt
-      refreshToken := hasCode c.rt && offline
+      tokenFront := hasTokenFront c.rt
+      idToken := hasIdTokenFront c.rt || (hasCode c.rt && !hasTokenFront c.rt)
+      accessToken := hasTokenFront c.rt || hasCode c.rt
+      tokenResponse := hasCode c.rt && !hasTokenFront c.rt
+      refreshToken := hasCode c.rt && !hasTokenFront c.rt && offline
       idTokenEncrypted := c.ienc != .none
-      userinfoCalled := hasCode c.rt }
+      userinfoCalled := hasCode c.rt || hasTokenFront c.rt }
 
 /-! the product both halves advertise -/
-def allRT : List RT := [.code, .idToken, .codeIdToken]
+def allRT : List RT := [.code, .idToken, .codeIdToken, .codeToken, .idTokenToken, .codeIdTokenToken, .token]
 def allRM : List RM := [.default, .query, .fragment, .formPost]
 def allAM : List AM := [.secretBasic, .secretPost, .secretJwt, .privateKeyJwt]
 def allFmt : List Fmt := [.opaque, .jwt]
